@@ -66,6 +66,7 @@ func checkC19(c *Ctx) (string, []string) {
 		}
 		c.Check(okR, "C19.append", M+"AppendOne · result", f.Pos(), "returns the installed list", fmt.Sprintf("AppendOne returns %v", rets))
 	}
+	c19AppendTerms(c, fn["MMR.AppendOne"])
 	c19P(c, fn["MMR.P"], fn["MMR.Replace"], fn["MMR.concatenateAndHash"])
 	c.requireSet("C19.append", M+"Replace · result", fn["MMR.Replace"].Pos(), "Replace returns", abbrMap(returnShapesO(fn["MMR.Replace"], o))["ret"], []string{"make([]types.MmrPeak, len(p1)){[:] ⇐ p1; [p2] ← p3}"})
 	c.requireSet("C19.append", M+"concatenateAndHash · result", fn["MMR.concatenateAndHash"].Pos(), "the merge returns", abbrMap(returnShapesO(fn["MMR.concatenateAndHash"], o))["ret"], []string{"cell(p0.hashFn(cat(p1[:], p2[:])))"})
